@@ -77,6 +77,21 @@ Problems(gg) ==
      ELSE IF conflictBad # {} THEN (LET c == CHOOSE c \in conflictBad : TRUE IN <<"conflict-line", c[1] - 1, c[2], ActOn(gg, c[1], c[2]), A[gg].tbl[SpecStateOf(gg, c[1])][c[2]]>>)
      ELSE <<>>
 
+\* ---- the LEXICAL ANALYZER section against the dumped lexer automaton (growth beyond C11's statement: the readme documents
+\* the format "STATE <nr> [recognized <term>] {<char_descr> -> <new_state>}" and "(unreachable)")
+LexProblems(gg) ==
+  LET dl == Ds[gg].lexer pl == Dg[gg].lexer IN
+  IF Len(dl) = 0 THEN <<>>                                   \* custom lexer: no section
+  ELSE IF Len(pl) # Len(dl) THEN <<"lexer-state-count", Len(pl), Len(dl)>>
+  ELSE LET badS == {q \in 1..Len(dl) :
+                      \/ pl[q].n # q - 1
+                      \/ pl[q].unr # dl[q].unr
+                      \/ (dl[q].unr = 0 /\ \/ pl[q].rec # dl[q].end
+                                             \/ pl[q].name # (IF dl[q].rec = <<>> THEN "" ELSE Ds[gg].term_names[dl[q].rec[1] + 1])
+                                             \/ pl[q].tr # dl[q].tr)}
+       IN IF badS = {} THEN <<>> ELSE <<"lexer-state-line-differs-from-real-state", (CHOOSE q \in badS : TRUE) - 1>>
+LexReported == LexProblems(gx) = <<>> \/ PrintT(<<"DIAGLEX", ToJson([g |-> Gs[gx].id, why |-> LexProblems(gx)])>>)
+
 DiagReported == Problems(gx) = <<>> \/ PrintT(<<"DIAG", ToJson([g |-> Gs[gx].id, why |-> Problems(gx)])>>)
 Summary == PrintT(<<"DIAGSUM", ToJson([g |-> Gs[gx].id, states |-> Len(Dg[gx].states), conflicts |-> Cardinality(A[gx].conflicts), rr |-> Cardinality(A[gx].rr),
                                        lines |-> Cardinality({<<s, k>> \in (1..Len(Dg[gx].states)) \X (1..200) : k <= Len(Dg[gx].states[s].actions)})])>>)
